@@ -4,7 +4,10 @@ package main
 // Lean model (Model/Rewrite.lean): imports + declarations with their source text.
 
 import (
+	"crypto/sha256"
+	"fmt"
 	"go/ast"
+	"go/format"
 	"go/parser"
 	"go/token"
 	"os"
@@ -33,6 +36,7 @@ type ODecl struct {
 	Hdr     string `json:"hdr"`   // source from d.Pos() to the body's "{" (func with body), else the whole d.Pos()..d.End()
 	Inner   string `json:"inner"` // source between the body's braces
 	HasBody bool   `json:"hasBody"`
+	Canon   string `json:"canon"` // the body as gofmt prints it, trimmed (equals TrimSpace(inner) for a gofmt-ed file)
 	Tight   bool   `json:"tight"` // source starts and ends with a non-space character
 }
 
@@ -45,6 +49,7 @@ type OFile struct {
 	Remaining string    `json:"remaining"`
 	RemMode   string    `json:"remMode"` // none | block | line
 	Used      []string  `json:"used"`    // unresolved selector bases (what internal/imports.Prune calls used)
+	Sha       string    `json:"sha"` // SHA-256 of the file's bytes
 	Raw       string    `json:"-"`
 }
 
@@ -93,6 +98,24 @@ func specDoc(g *ast.CommentGroup) string {
 	return strings.Join(lines, "\n")
 }
 
+// canonBody formats the function on its own with gofmt and returns its trimmed body text.
+func canonBody(fn string, inner string) string {
+	out, err := format.Source([]byte("package p\n\n" + fn + "\n"))
+	if err != nil {
+		return strings.TrimSpace(inner)
+	}
+	fs := token.NewFileSet()
+	f, err := parser.ParseFile(fs, "x.go", out, parser.ParseComments)
+	if err != nil || len(f.Decls) != 1 {
+		return strings.TrimSpace(inner)
+	}
+	fd, ok := f.Decls[0].(*ast.FuncDecl)
+	if !ok || fd.Body == nil {
+		return strings.TrimSpace(inner)
+	}
+	return strings.TrimSpace(string(out[fs.Position(fd.Body.Lbrace).Offset+1 : fs.Position(fd.Body.Rbrace).Offset]))
+}
+
 func tight(s string) bool {
 	return s != "" && strings.TrimSpace(s[:1]) != "" && strings.TrimSpace(s[len(s)-1:]) != ""
 }
@@ -109,6 +132,7 @@ func observeFile(path string) OFile {
 	}
 	src := string(b)
 	of.Raw = src
+	of.Sha = fmt.Sprintf("%x", sha256.Sum256(b))
 	fset := token.NewFileSet()
 	f, err := parser.ParseFile(fset, path, b, parser.ParseComments|parser.AllErrors)
 	if err != nil {
@@ -153,6 +177,7 @@ func observeFile(path string) OFile {
 				od.HasBody = true
 				od.Hdr = src[off(d.Pos()):off(d.Body.Lbrace)]
 				od.Inner = src[off(d.Body.Lbrace)+1 : off(d.Body.Rbrace)]
+				od.Canon = canonBody(src[off(d.Pos()):off(d.End())], od.Inner)
 			} else {
 				od.Hdr = src[off(d.Pos()):off(d.End())]
 			}
